@@ -37,6 +37,52 @@ def macro_consts(ctx):
     return obs
 
 
+EDI = "data::encode_data_internal"
+
+
+def dispatch_traces(f, rule):
+    """{(use_macros, eci): [encoder calls in order]} of encode_data_internal, by folding its loop-free body"""
+    b = f.thir.get(EDI)
+    need(b, rule, EDI)
+    names = {}
+    for p_ in b["params"]:
+        pat = p_.get("pat") or {}
+        need(pat.get("k") == "Bind", rule, EDI, "(plain parameters)")
+        names[pat["name"].split("#")[0]] = pat["name"]
+    need("use_macros" in names and "eci" in names, rule, EDI, "(parameters use_macros, eci)")
+    out = {}
+    watch = ["GenericDataEncoder::with_size", "GenericDataEncoder::use_macro_if_possible", "GenericDataEncoder::write_eci", "GenericDataEncoder::codewords"]
+    for um in (False, True):
+        for eci in (None, 26):
+            env = {full: T.Token(short) for short, full in names.items()}
+            env[names["use_macros"]] = um
+            env[names["eci"]] = {"__adt__": "core::option::Option", "__variant__": "None"} if eci is None else \
+                {"__adt__": "core::option::Option", "__variant__": "Some", "#0": eci, "0": eci}
+            try:
+                tr, _res = T.call_trace(f, EDI, env, watch)
+                out[(um, eci)] = [(w.split("::")[-1], a) for w, a in tr]
+            except (T.Undecidable, T.Trap) as ex:
+                out[(um, eci)] = "cannot decide: %s" % ex
+    return out
+
+
+def encoder_dispatch(f, rule):
+    tr = dispatch_traces(f, rule)
+    det = {"%s/%s" % k: ([n for n, _a in v] if isinstance(v, list) else v) for k, v in tr.items()}
+    if not all(isinstance(v, list) for v in tr.values()):
+        return False, False, det
+    ok = all(([n for n, _a in v].count("use_macro_if_possible") == (1 if um else 0)) for (um, _e), v in tr.items())
+    order = True
+    for (um, eci), v in tr.items():
+        ns = [n for n, _a in v]
+        if um:
+            i0 = ns.index("use_macro_if_possible") if "use_macro_if_possible" in ns else -1
+            later = [k for k, n in enumerate(ns) if n in ("write_eci", "codewords")]
+            order = order and i0 >= 0 and all(k > i0 for k in later) and ns[:1] == ["with_size"]
+        order = order and ns.count("codewords") == 1 and ns[-1] == "codewords"
+    return ok, order, det
+
+
 def dom_macro(ctx):
     r = "DOM-MACRO"
     f = ctx.facts()
@@ -56,6 +102,42 @@ def dom_macro(ctx):
     g_empty = guard("Vec::is_empty", lambda a: _has_field(a[0], "codewords"))
     g_ends = guard("::ends_with", lambda a: _has_field(a[0], "data") and any(c[1] == TRAIL for c in _consts_in(a[1])))
     g_starts = guard("::starts_with", lambda a: _has_field(a[0], "data"))
+    find_form = False
+    if not g_starts:
+        # `table.into_iter().find(|(head, _)| data.starts_with(head))`: the header test is the predicate of a `find` over the
+        # table, and the `Some` edge of the match on its result plays the role of the test's true edge
+        for b, t in body.calls(lambda c, _t: T.canon(c).endswith("Iterator::find")):
+            cl = body.expr_of_operand(t["args"][1])
+            if not (cl[0] == "closure" and cl[1] in f.mir) or t["dest"]["p"]:
+                continue
+            cb = M.Body(f.mir[cl[1]])
+            sc = cb.calls(lambda c, _t: T.canon(c).endswith("::starts_with"))
+            other = [x for x in cb.calls() if x not in sc]
+            if len(sc) != 1 or other or sc[0][1]["dest"]["l"] != 0 or sc[0][1]["dest"]["p"]:
+                continue   # the closure must return exactly the starts_with result
+            a = [cb.deep(cb.expr_of_operand, x) for x in sc[0][1]["args"]]
+
+            def peel(x):
+                while x[0] in ("ref", "deref"):
+                    x = x[1]
+                return x
+            recv, needle = peel(a[0]), peel(a[1])
+            # receiver: captured variable k of the closure environment (_1.k); needle: .0 of the element (_2.0)
+            if not (recv[0] == "field" and peel(recv[1])[:2] == ("arg", "_1") and needle[0] == "field" and needle[2] == "0" and peel(needle[1])[:2] == ("arg", "_2")):
+                continue
+            k = int(recv[2]) if str(recv[2]).isdigit() else None
+            if k is None or k >= len(cl[2]):
+                continue
+            outer = set()
+            for o in body.origins(cl[2][k]):
+                outer.add(peel(o))
+            if not outer or not all(_has_field(o, "data") and "self" in repr(o) for o in outer):
+                continue
+            ve = body.variant_edges(t["dest"]["l"])
+            if 1 in ve and (0 in ve or "otherwise" in ve):
+                elem = ("downcast", M._freeze_t(body.expr_of_call(t)), "Some")
+                g_starts.append((b, ve[1], ve.get(0) or ve["otherwise"], [sorted(outer, key=repr)[0], ("field", ("field", elem, "0"), "0")]))
+                find_form = True
     obs.append(Ob(r, "guards-present", bool(g_empty) and bool(g_ends) and bool(g_starts),
                   "use_macro_if_possible tests codewords.is_empty(), data.ends_with(MACRO_TRAIL) and data.starts_with(head)",
                   detail={"is_empty": len(g_empty), "ends_with": len(g_ends), "starts_with": len(g_starts)}))
@@ -83,6 +165,12 @@ def dom_macro(ctx):
             while cw[0] in ("ref", "deref"):
                 cw = cw[1]
             det = (M.show(cw, 120), M.show(hd, 120))
+            if find_form:
+                # the pushed codeword is .1 of the element `find` returned; the predicate tested that element's .0
+                cws = {o for o in body.origins(body.expr_of_operand(t["args"][1]))}
+                if cws and all(o == ("field", hd[1], "1") for o in cws) and hd[0] == "field" and hd[2] == "0":
+                    pair_ok = True
+                continue
             # both are the two halves (.1 / .0) of the same element produced by the table iterator's next()
             if cw[0] == "field" and hd[0] == "field" and cw[2] == "1" and hd[2] == "0" and cw[1] == hd[1] \
                     and any(isinstance(x, tuple) and x[0] == "call" and x[1].endswith("::next") for x in M.walk(cw[1])):
@@ -119,24 +207,11 @@ def dom_macro(ctx):
         if any(pb in reach for pb, _t in pushes):
             once = False
     obs.append(Ob(r, "at-most-once", once, "after a macro codeword has been pushed no path leads to another macro push (one macro codeword, first position only)"))
-    # called only under use_macros
-    edi = find_body(f, "data::encode_data_internal", r)
-    calls = edi.calls(lambda c, _t: T.canon(c).endswith("use_macro_if_possible"))
-    ok = False
-    if len(calls) == 1:
-        cb = calls[0][0]
-        for b in range(edi.n):
-            sw = edi.switch_on(b)
-            if sw and sw[0][0] in ("arg", "var") and sw[0][1] == "use_macros" and 0 in sw[1]:
-                ok = ok or edi.dominated_by_edge(cb, (b, sw[2]))
-    obs.append(Ob(r, "only-if-enabled", ok, "encode_data_internal calls use_macro_if_possible only on the true edge of `use_macros`"))
-    # ... and before the ECI header and before encoding starts (so `codewords` holds at most the FNC1 codeword)
-    order_ok = False
-    if len(calls) == 1:
-        cb = calls[0][0]
-        later = edi.calls(lambda c, _t: T.canon(c).endswith("write_eci") or T.canon(c).endswith("GenericDataEncoder::codewords"))
-        order_ok = bool(later) and all(cb not in edi.reachable(t["target"]) for _b, t in later if "target" in t)
-    obs.append(Ob(r, "before-eci", order_ok, "macro detection runs before write_eci() and codewords()"))
+    # called only under use_macros, before the ECI header and before encoding starts: the dispatch function is folded
+    # for the four combinations of (use_macros, eci) and the order of the encoder calls is read off
+    ok, order_ok, det = encoder_dispatch(f, r)
+    obs.append(Ob(r, "only-if-enabled", ok, "encode_data_internal calls use_macro_if_possible exactly when `use_macros` is set", detail=det))
+    obs.append(Ob(r, "before-eci", order_ok, "macro detection runs before write_eci() and codewords() (so `codewords` holds at most the FNC1 codeword)", detail=det))
     obs += floor(obs, r, 7 + 6 + 4, "macro obligations")
     return obs
 
@@ -337,7 +412,11 @@ def fnc1(ctx):
     obs.append(Ob(r, "wire:encode_data_internal", ok, "encode_data_internal forwards its fnc1_start parameter"))
     ee = find_body(f, "DataMatrixBuilder::encode_eci", r)
     c = ee.calls(lambda c, _t: T.canon(c).endswith("data::encode_data_internal"))
-    ok = len(c) == 1 and _has_field(ee.expr_of_operand(c[0][1]["args"][5]), "fnc1_start") and _has_field(ee.expr_of_operand(c[0][1]["args"][4]), "use_macros")
+    def from_self_field(op, field):
+        # every value that can reach the operand is self.<field> (directly or through a destructured / copied local)
+        srcs = ee.origins(ee.expr_of_operand(op))
+        return bool(srcs) and all(_has_field(x, field) and "self" in repr(x) for x in srcs)
+    ok = len(c) == 1 and from_self_field(c[0][1]["args"][5], "fnc1_start") and from_self_field(c[0][1]["args"][4], "use_macros")
     obs.append(Ob(r, "wire:encode_eci", ok, "encode_eci passes self.use_macros and self.fnc1_start"))
     ed = find_body(f, "data::encode_data", r)
     c = ed.calls(lambda c, _t: T.canon(c).endswith("data::encode_data_internal"))
@@ -393,6 +472,38 @@ def fnc1(ctx):
                     and any(isinstance(x, tuple) and x[0] == "call" and T.canon(x[1]).endswith("EncodationType::all") for x in M.walk(e.get("encodation_types"))) \
                     and any(isinstance(x, tuple) and x[0] == "call" and T.canon(x[1]).endswith("Default>::default") for x in M.walk(e.get("symbol_list")))
                 obs.append(Ob(r, "builder-defaults", ok, "DataMatrixBuilder::new(): all modes, default symbol list, macros on, no FNC1 start", site=M.fmt_span(st["span"])))
+    # the `mut self` spelling: `self.<own> = param; self` - no struct is rebuilt, exactly one field of self is stored to
+    for name, raw in f.mir.items():
+        cn = T.canon(name)
+        last = cn.split("::")[-1]
+        if not cn.startswith("DataMatrixBuilder::") or last not in setters or last in seen_setters:
+            continue
+        body = M.Body(raw)
+        own = setters[last]
+        bad = []
+        stores = {}
+        for fld in FIELDS:
+            for kind, fn, _b, bb, i, st, val in field_writers(f, "DataMatrixBuilder", fld):
+                if fn == name and not _b.blocks[bb].get("cleanup"):     # (drop-and-replace repeats the store on the unwind path)
+                    stores.setdefault(fld, []).append((kind, val, st))
+        for fld, lst in stores.items():
+            if fld != own:
+                bad.append("%s is written as well" % fld)
+        mine = stores.get(own, [])
+        if len(mine) != 1 or mine[0][0] != "assign":
+            bad.append("%s is not stored exactly once" % own)
+        else:
+            e = mine[0][1]
+            base = mine[0][2]["place"]["l"]
+            if base != 1:
+                bad.append("the store is not into `self`")
+            if not any(isinstance(x, tuple) and x[0] in ("arg", "var") and x[1] not in ("self",) for x in M.walk(body.deep(body.expr_of_rvalue, mine[0][2]["rv"]))) or _has_field(e, own):
+                bad.append("%s not taken from the parameter: %s" % (own, M.show(e, 60)))
+        rets = body.origins(("var", "_0", 0))
+        if not rets or not all(x[:2] in (("arg", "self"), ("partial", "self")) for x in rets):
+            bad.append("does not return self: %s" % [M.show(x, 40) for x in rets])
+        seen_setters.add(last)
+        obs.append(Ob(r, "setter:" + last, not bad, "%s changes only `%s`, from its parameter; every other option is carried over unchanged" % (last, own), site=M.fmt_span(raw["span"]), detail=bad))
     obs.append(Ob(r, "setters-found", seen_setters == set(setters), "all four builder setters analysed", detail=sorted(seen_setters)))
     gs = find_body(f, "DataMatrix::encode_gs1", r)
     c = gs.calls(lambda c, _t: T.canon(c).endswith("with_fnc1_start"))
